@@ -64,6 +64,24 @@ func aParseBody() string {
 // aStringBody: (*A).String; net.IP.String of a four-octet address is DnsModel.TextCodec.printIPv4
 const aStringBody = `{ifrr.A==nil{returnrr.Hdr.String()}returnrr.Hdr.String()+rr.A.String()}`
 
+// typeLoopSrc: the type-bitmap loop of (*NSEC).parse / (*CSYNC).parse as src() prints it, error texts replaced
+var typeLoopSrc = strings.Join(strings.Fields(`for l.value != zNewline && l.value != zEOF {
+		switch l.value {
+		case zBlank:
+		case zString:
+			tokenUpper := strings.ToUpper(l.token)
+			if k, ok = StringToType[tokenUpper]; !ok {
+				if k, ok = typeToInt(l.token); !ok {
+					return &ParseError{}
+				}
+			}
+			rr.TypeBitMap = append(rr.TypeBitMap, k)
+		default:
+			return &ParseError{}
+		}
+		l, _ = c.Next()
+	}`), "")
+
 var firstBodyRe = regexp.MustCompile(`^\{s,e:=endingToTxtSlice\(c,"bad([A-Z0-9]+)([A-Za-z]+)"\)ife!=nil\{returne\}ifln:=len\(s\);ln==0\{returnnil\}rr\.([A-Za-z]+)=s\[0\]returnnil\}$`)
 
 type tstep struct {
@@ -111,6 +129,10 @@ func (s tstep) lean() string {
 		return ".nodeId"
 	case "ipv4":
 		return ".ipv4"
+	case "uintlax":
+		return fmt.Sprintf(".uintLax %d", s.Bits)
+	case "typelist":
+		return ".typeList"
 	case "salt":
 		return ".salt"
 	case "tokstr":
@@ -180,6 +202,8 @@ func (p *pkgInfo) parsePlanOf(fd *ast.FuncDecl, depth int) ([]tstep, bool) {
 	rawTok := ""                            // field that takes the raw token (after an `if l.err` check)
 	strTok := ""                            // field that takes the token after an `if l.value != zString` check
 	nodeVar, nodeErr := "", ""              // the last stringToNodeID: value variable, error variable
+	uintLax := false                        // the error check behind the last ParseUint did not look at l.err
+	typeList := false                       // the type-bitmap loop has been seen (nothing may follow but `return nil`)
 	lhsNames := func(s *ast.AssignStmt) []string {
 		var ns []string
 		for _, l := range s.Lhs {
@@ -201,7 +225,7 @@ func (p *pkgInfo) parsePlanOf(fd *ast.FuncDecl, depth int) ([]tstep, bool) {
 						return nil, false
 					}
 					ns := lhsNames(s)
-					uintVar, uintErr, uintBits = ns[0], ns[1], bits
+					uintVar, uintErr, uintBits, uintLax = ns[0], ns[1], bits, false
 					continue
 				}
 				if c, ok := isCall(s.Rhs[0], "", "toAbsoluteName"); ok && len(c.Args) == 2 && p.src(c.Args[0]) == "l.token" && p.src(c.Args[1]) == "o" && len(s.Lhs) == 2 {
@@ -233,9 +257,15 @@ func (p *pkgInfo) parsePlanOf(fd *ast.FuncDecl, depth int) ([]tstep, bool) {
 					rhs := p.src(s.Rhs[0])
 					switch {
 					case uintVar != "" && rhs == fmt.Sprintf("uint%d(%s)", uintBits, uintVar):
-						out = append(out, tstep{Kind: "uint", Bits: uintBits, Field: f})
-						uintVar = ""
+						kind := "uint"
+						if uintLax {
+							kind = "uintlax"
+						}
+						out = append(out, tstep{Kind: kind, Bits: uintBits, Field: f})
+						uintVar, uintLax = "", false
 						continue
+					case f == "TypeBitMap" && rhs == "make([]uint16,0)":
+						continue // the empty bitmap the loop appends to
 					case nodeVar != "" && rhs == nodeVar:
 						out = append(out, tstep{Kind: "nodeid", Field: f})
 						nodeVar = ""
@@ -309,7 +339,10 @@ func (p *pkgInfo) parsePlanOf(fd *ast.FuncDecl, depth int) ([]tstep, bool) {
 			if s.Else == nil && len(s.Body.List) == 1 && s.Init == nil {
 				if _, ok := s.Body.List[0].(*ast.ReturnStmt); ok {
 					cond := p.src(s.Cond)
-					// (a lexer-error token carries a message, never digits: `e != nil` alone rejects it too)
+					if uintErr != "" && cond == uintErr+"!=nil" {
+						uintLax = true // the token's error flag is not looked at: step `uintLax`
+						continue
+					}
 					if (uintErr != "" && (cond == uintErr+"!=nil||l.err" || cond == uintErr+"!=nil")) || (nameOk != "" && cond == "l.err||!"+nameOk) || (endErr != "" && cond == endErr+"!=nil") || (nodeErr != "" && cond == nodeErr+"!=nil||l.err") {
 						continue
 					}
@@ -318,7 +351,7 @@ func (p *pkgInfo) parsePlanOf(fd *ast.FuncDecl, depth int) ([]tstep, bool) {
 			return nil, false
 		case *ast.DeclStmt:
 			// `var ( v uint32; ok bool )` in front of the SOA loop
-			if p.src(s) == "var(vuint32okbool)" {
+			if p.src(s) == "var(vuint32okbool)" || p.src(s) == "var(kuint16okbool)" {
 				continue
 			}
 			return nil, false
@@ -333,9 +366,18 @@ func (p *pkgInfo) parsePlanOf(fd *ast.FuncDecl, depth int) ([]tstep, bool) {
 				}
 				continue
 			}
+			// the type bitmap of NSEC / CSYNC: the rest of the entry as type mnemonics
+			if parseErrRe.ReplaceAllString(p.src(s), "&ParseError{}") == typeLoopSrc && idx == len(stmts)-2 {
+				out = append(out, tstep{Kind: "typelist", Field: "TypeBitMap"})
+				typeList = true
+				continue
+			}
 			return nil, false
 		case *ast.ReturnStmt:
 			if idx != len(stmts)-1 || len(s.Results) != 1 {
+				return nil, false
+			}
+			if typeList && p.src(s.Results[0]) != "nil" {
 				return nil, false
 			}
 			if _, ok := isCall(s.Results[0], "", "slurpRemainder"); ok {
@@ -418,6 +460,7 @@ func (p *pkgInfo) printPlanOf(fd *ast.FuncDecl, typ string) ([]tstep, bool) {
 	}
 	var leaves []ast.Expr
 	var parts []ast.Expr
+	typeLoop := false // `for _, t := range rr.TypeBitMap { s += " " + Type(t).String() }` is the last statement before `return s`
 	if n := len(fd.Body.List); n >= 2 {
 		// `s := e1; s += e2; …; return s`: the concatenation of the parts
 		first, ok1 := fd.Body.List[0].(*ast.AssignStmt)
@@ -427,7 +470,11 @@ func (p *pkgInfo) printPlanOf(fd *ast.FuncDecl, typ string) ([]tstep, bool) {
 			return nil, false
 		}
 		parts = append(parts, first.Rhs[0])
-		for _, st := range fd.Body.List[1 : n-1] {
+		for i, st := range fd.Body.List[1 : n-1] {
+			if rs, ok := st.(*ast.RangeStmt); ok && i == n-3 && isTypeLoop(p, rs) {
+				typeLoop = true
+				continue
+			}
 			as, ok := st.(*ast.AssignStmt)
 			if !ok || as.Tok != token.ADD_ASSIGN || len(as.Lhs) != 1 || len(as.Rhs) != 1 || p.src(as.Lhs[0]) != "s" {
 				return nil, false
@@ -464,8 +511,7 @@ func (p *pkgInfo) printPlanOf(fd *ast.FuncDecl, typ string) ([]tstep, bool) {
 	}
 	var out []tstep
 	for _, l := range leaves[1:] {
-		src := p.src(l)
-		if src == `""` { // `" "`: src() drops all white space
+		if bl, ok := l.(*ast.BasicLit); ok && bl.Value == `" "` {
 			out = append(out, tstep{Kind: "blank"})
 			continue
 		}
@@ -549,7 +595,27 @@ func (p *pkgInfo) printPlanOf(fd *ast.FuncDecl, typ string) ([]tstep, bool) {
 		}
 		return nil, false
 	}
+	if typeLoop {
+		out = append(out, tstep{Kind: "typelist", Field: "TypeBitMap"})
+	}
 	return out, true
+}
+
+// isTypeLoop: `for _, t := range rr.TypeBitMap { s += " " + Type(t).String() }`
+func isTypeLoop(p *pkgInfo, rs *ast.RangeStmt) bool {
+	if rs.Key == nil || rs.Value == nil || p.src(rs.Key) != "_" || p.src(rs.Value) != "t" || p.src(rs.X) != "rr.TypeBitMap" || len(rs.Body.List) != 1 {
+		return false
+	}
+	as, ok := rs.Body.List[0].(*ast.AssignStmt)
+	if !ok || as.Tok != token.ADD_ASSIGN || len(as.Lhs) != 1 || len(as.Rhs) != 1 || p.src(as.Lhs[0]) != "s" {
+		return false
+	}
+	b, ok := as.Rhs[0].(*ast.BinaryExpr)
+	if !ok || b.Op != token.ADD {
+		return false
+	}
+	bl, ok := b.X.(*ast.BasicLit)
+	return ok && bl.Value == `" "` && p.src(b.Y) == "Type(t).String()"
 }
 
 type textPlan struct {
